@@ -15,7 +15,7 @@ ASSUMED = {
     "str(int)": "str(n) / \"%d\" % n is an injective function itoa(n)",
     "format": "\"a\\tb\" % (...) builds the tab-separated field list [a, b]; a field made of several conversions is cat(...) of its pieces",
     "sorted": "sorted(xs) / xs.sort() returns a permutation of xs in non-decreasing order of the key",
-    "dict-iteration": "iterating a dict/set visits every key exactly once (order: insertion order for OrdDict, arbitrary otherwise)",
+    "dict-iteration": "iterating a dict/set visits every key exactly once (order: insertion order for OrdDict, arbitrary otherwise; two iterations over the same unmodified dict/set value use the same order)",
     "re.split-path": "list(filter(None, re.split('(>)|(<)', p))) yields the alternating orientation/name tokens of the path p",
 }
 
@@ -1276,8 +1276,17 @@ def key_order(eng, has, kty, st, ordered_keys=None):
     """ghost enumeration of the keys of a set/dict: a list `seq` of distinct keys covering exactly the members"""
     eng.assumptions_used.add("assumed: " + ASSUMED["dict-iteration"])
     lty = ListT(kty)
-    seq = Val(lty.fresh("keyseq"), lty)
-    pos = z3.FreshConst(z3.ArraySort(kty.sort(), z3.IntSort()), "keypos")
+    # one enumeration per membership array: iterating the same unmodified dict / set twice visits the keys in the same order
+    cache = getattr(eng, "key_order_cache", None)
+    if cache is None:
+        cache = eng.key_order_cache = {}
+    ck = (has.get_id(), kty.name)
+    if ck in cache:
+        seq, pos = cache[ck]
+    else:
+        seq = Val(lty.fresh("keyseq"), lty)
+        pos = z3.FreshConst(z3.ArraySort(kty.sort(), z3.IntSort()), "keypos")
+        cache[ck] = (seq, pos)
     i = z3.FreshConst(z3.IntSort(), "ki")
     k = z3.FreshConst(kty.sort(), "kk")
     L = lty.len(seq.t)
